@@ -51,6 +51,8 @@ type FuncContract struct {
 	Invs     map[int][]*Clause
 	Decr     map[int]*Clause
 	Bounded  map[int]string // loop ordinal -> name of the bounded stand-in covering its termination
+	Steps    map[int][]*Clause // relational per-iteration obligations (checked on back edges only)
+	Entries  map[int][]*Clause // obligations on loop entry only
 	Inline   bool
 	Canaries []*Clause
 	File     string
@@ -159,7 +161,7 @@ func (cs *Contracts) parseFile(path, pkgPath string) error {
 		}
 		switch kw {
 		case "func":
-			cur = &FuncContract{Name: rest, Pkg: pkgPath, Invs: map[int][]*Clause{}, Decr: map[int]*Clause{}, Bounded: map[int]string{}, File: path, Line: r.line}
+			cur = &FuncContract{Name: rest, Pkg: pkgPath, Invs: map[int][]*Clause{}, Decr: map[int]*Clause{}, Bounded: map[int]string{}, Steps: map[int][]*Clause{}, Entries: map[int][]*Clause{}, File: path, Line: r.line}
 			key := pkgPath + "." + rest
 			if _, dup := cs.Funcs[key]; dup {
 				return fmt.Errorf("%s:%d: duplicate contract for %s", path, r.line, rest)
@@ -247,8 +249,16 @@ func (cs *Contracts) parseFile(path, pkgPath string) error {
 				cur.Invs[n] = append(cur.Invs[n], c)
 			case "decreases":
 				cur.Decr[n] = c
-			case "bounded":
-				cur.Bounded[n] = text
+			case "step":
+				if c.Label == "" {
+					c.Label = strconv.Itoa(len(cur.Steps[n]) + 1)
+				}
+				cur.Steps[n] = append(cur.Steps[n], c)
+			case "entry":
+				if c.Label == "" {
+					c.Label = strconv.Itoa(len(cur.Entries[n]) + 1)
+				}
+				cur.Entries[n] = append(cur.Entries[n], c)
 			default:
 				return fmt.Errorf("%s:%d: unknown loop clause %q", path, r.line, kind)
 			}
